@@ -1312,6 +1312,8 @@ def call_method(ex, node, st):
             indom = z3.Select(rty.dom(recv.term), k.term)
             val = Val(rty.v, z3.Select(rty.val(recv.term), k.term))
             dflt = args[1] if len(args) > 1 else NONE
+            if isinstance(dflt, (PyDict, PyTuple)):
+                dflt = coerce(dflt, rty.v)       # `{}` / `[]` as default
             ty = join_ty(rty.v, dflt.ty)
             return Val(ty, z3.If(indom, coerce(val, ty).term,
                                  coerce(dflt, ty).term))
@@ -1481,6 +1483,14 @@ def list_remove(ex, recv, arg, st, write):
     st.assume(z3.ForAll([j], z3.Implies(z3.And(0 <= j, j < p),
               z3.Select(oarr, j) == z3.Select(arr, j))))
     st.assume(z3.ForAll([j], z3.Implies(z3.And(p <= j, j < n - 1),
-              z3.Select(oarr, j) == z3.Select(arr, j + 1))))
+              z3.Select(oarr, j) == z3.Select(arr, j + 1)),
+              patterns=[z3.Select(oarr, j)]))
+    # the same fact, triggered from the old list's side
+    st.assume(z3.ForAll([j], z3.Implies(z3.And(p < j, j < n),
+              z3.Select(arr, j) == z3.Select(oarr, j - 1)),
+              patterns=[z3.Select(arr, j)]))
+    st.assume(z3.ForAll([j], z3.Implies(z3.And(0 <= j, j < p),
+              z3.Select(arr, j) == z3.Select(oarr, j)),
+              patterns=[z3.Select(arr, j)]))
     write(out)
     return NONE
